@@ -20,6 +20,7 @@
  *   smgr SS NP align pool
  *   alloc H W Ht | salloc H N | dup H SRC | free H
  *   resize H hskip vskip hsize vsize | sresize H off size
+ *   replace H hskip vskip hsize vsize       ubuf_pic_replace (copy into a new picture)
  *   map H P hoff voff hsize vsize r|w | smap H P off size r|w
  *   fill H K | check H | peek H P x y | size H | end (closes an execution)
  *   poke H P x y K                  write one cell through its own write mapping
@@ -519,6 +520,30 @@ int main(int argc, char **argv)
             int err = sound ? ubuf_sound_resize(handles[h], hskip, hsize)
                 : ubuf_pic_resize(handles[h], hskip, vskip, hsize, vsize);
             printf("%s\n", errname(err));
+
+        } else if (!strcmp(cmd, "replace")) {
+            /* ubuf_pic_replace: crop / extension by COPY into a newly allocated picture (ubuf_pic_copy,
+             * ubuf_pic_blit), the old one is released */
+            int h, hskip, vskip, hsize, vsize;
+            if (sscanf(line, "%*s %d %d %d %d %d", &h, &hskip, &vskip, &hsize, &vsize) != 5)
+                goto syntax;
+            if (h < 0 || h >= MAX_HANDLES || handles[h] == NULL || handle_view[h] || mgr_sound)
+                goto syntax;
+            int before = live_areas;
+            last_area = -1;
+            last_free_guard = 1;
+            int err = ubuf_pic_replace(mgr, &handles[h], hskip, vskip, hsize, vsize);
+            if (!ubase_check(err)) {
+                printf("%s\n", errname(err));
+                continue;
+            }
+            if (last_area < 0) {
+                fprintf(stderr, "HARNESS: replace without umem\n");
+                return 3;
+            }
+            handle_area[h] = last_area;
+            printf("ok area=%d size=%zu released=%d guard=%s\n", last_area, areas[last_area].size,
+                   before + 1 - live_areas, last_free_guard ? "ok" : "corrupt");
 
         } else if (!strcmp(cmd, "size")) {
             int h;
